@@ -169,6 +169,7 @@ type Exec struct {
 	topFrame *Frame
 	caseName string
 	nret     int
+	curFr    *Frame
 	mterms   []*Term
 	mnames   []string
 	mtermsFor *Frame
@@ -448,6 +449,18 @@ func (x *Exec) oblige(st *State, kind, label string, goal *Term, src, where stri
 	if x.dry || st.dead {
 		return
 	}
+	if kind == "safe" && x.curFr != nil && x.frameRecovers(x.curFr) {
+		// inside a function that recovers from run-time panics the failure of a
+		// safety condition is not an error: it is the path "the recovering
+		// function returns through its deferred handler"
+		if !goal.IsTrue() {
+			st2 := st.clone()
+			st2.assume(Not(goal))
+			st2.trace = append(st2.trace, "panic:"+label)
+			x.recoverPath(st2, x.curFr)
+		}
+		return
+	}
 	x.E.addOblig(x, st, kind, label, goal, src, where, nil)
 }
 
@@ -568,6 +581,7 @@ func (x *Exec) run(st *State, fr *Frame, b *ssa.BasicBlock, idx int, pred *ssa.B
 		if st.dead {
 			return
 		}
+		x.curFr = fr
 		switch in := b.Instrs[i].(type) {
 		case *ssa.DebugRef:
 		case *ssa.If:
@@ -683,13 +697,42 @@ func (x *Exec) recoverPath(st *State, fr *Frame) {
 	if f == nil {
 		return
 	}
-	res := f.fn.Signature.Results()
-	out := make([]Val, res.Len())
-	for i := 0; i < res.Len(); i++ {
-		out[i] = x.freshVal("recovered", res.At(i).Type(), st)
-	}
-	st.ghost["recovered"] = TrueT
-	f.ret(st, out)
+	// the deferred calls of the recovering function run with recover() != nil;
+	// afterwards the function returns the current values of its named results
+	// (unnamed results are unknown)
+	st.ghost["panicking"] = TrueT
+	x.curFr = f
+	x.runDefers(st, f, func(st2 *State) {
+		res := f.fn.Signature.Results()
+		out := make([]Val, res.Len())
+		for i := 0; i < res.Len(); i++ {
+			name := res.At(i).Name()
+			var found *ssa.Alloc
+			if name != "" && name != "_" {
+				for _, b := range f.fn.Blocks {
+					for _, in := range b.Instrs {
+						if l, ok := in.(*ssa.Alloc); ok && l.Comment == name && found == nil {
+							found = l
+						}
+					}
+				}
+			}
+			if found != nil {
+				if v, ok := st2.locals[found]; ok {
+					out[i] = v
+					continue
+				}
+				if r, ok := st2.regs[found]; ok && found.Heap {
+					out[i] = x.loadAddr(st2, x.ptrAddr(r))
+					continue
+				}
+			}
+			out[i] = x.freshVal("recovered", res.At(i).Type(), st2)
+		}
+		st2.ghost["recovered"] = TrueT
+		delete(st2.ghost, "panicking")
+		f.ret(st2, out)
+	})
 }
 
 func (x *Exec) branch(st *State, fr *Frame, b *ssa.BasicBlock, c *Term) {
@@ -746,6 +789,21 @@ func (x *Exec) loopHead(st *State, fr *Frame, b *ssa.BasicBlock, pred *ssa.Basic
 	}
 	if spec != nil {
 		x.E.markLoopUsed(fr.fc, ord)
+	}
+	if fr != x.topFrame && x.fc != nil && x.fc.InlLoops != nil {
+		// extra invariants the function under verification gives for a loop of an inlined callee
+		for _, key := range []string{fullName(fr.fn) + fmt.Sprintf("#%d", ord), shortName(fullName(fr.fn)) + fmt.Sprintf("#%d", ord)} {
+			if extra := x.fc.InlLoops[key]; extra != nil {
+				merged := &LoopSpec{}
+				if spec != nil {
+					merged.Invariants = append(merged.Invariants, spec.Invariants...)
+					merged.Decreases = spec.Decreases
+				}
+				merged.Invariants = append(merged.Invariants, extra.Invariants...)
+				spec = merged
+				break
+			}
+		}
 	}
 	env := x.envFor(st, fr)
 	tag := fmt.Sprintf("%d", ord)
